@@ -563,6 +563,11 @@ class PenlogReader:
     def _parse_file_structure(self) -> None:
         old_offset = self.file_mmap.tell()
 
+        # The table describes the whole file; build it from the first
+        # record on, wherever the read position currently is.
+        self.file_mmap.seek(0)
+        self._record_offsets = []
+
         while True:
             self._record_offsets.append(self.file_mmap.tell())
 
